@@ -25,7 +25,8 @@ import (
 
 func init() {
 	register(&Prop{ID: "C18", Run: runC18, Replay: map[string]func(*mc.Ctx, json.RawMessage){
-		"tx": replayer(c18Eval),
+		"tx":     replayer(c18Eval),
+		"retain": replayer(c18EvalRetain),
 	}})
 }
 
@@ -687,5 +688,6 @@ func runC18(c *mc.Ctx) {
 			c18Eval(w, xs[i])
 		})
 	}
+	runC18Retain(c)
 
 }
